@@ -27,9 +27,12 @@ func init() {
 
 	register(&Property{
 		ID: "C01", Title: "Subscribed resources converge to the state announced by the service",
-		Explanation: "Decides structural necessary conditions of convergence, on every path and for every schedule: (1) in the cache, content, version and the event's update flag change together, and an initial load stores content, version 0 and the loaded state only under the not-loaded test of that same entry (PAIR/version-bump); every event is stamped with the pre-update version, applied by its handler, fanned out inside the unlock window and dropped only by the listed discards (CONF/handle-event); (2) cache content and version are written only by cache tasks under the entry's mutex and read under it (CTX/guarded-by); (3) the subscriber applies an event only when it targets its version and advances by one per update (DOM/version-filter); (4) events are processed only with the event gate known open, discarded before load, and reaccess dispatched first (DOM/event-gate); (5) queues are updated in order-preserving forms (FIFO); (6) all mutable subscription state is touched on the connection worker only (CTX/conn); (7) a resource made sendable again must carry a current snapshot (PAIR/snapshot-current: known finding F13); cached model and collection values are never written in place: every container write in the repository is traced to its origin and none originates from Collection.Values / Model.Values (DOM/copy-on-write); a fanned-out ResourceEvent is read-only, no field of it — also one added later — is stored by subscriber-side code (WHO/event-immutable). Not decided: end-to-end equality of the client copy with the service state, Value.Equal, the reset diff (C12), the collector (C02), JSON encodings, legacy-encoding selection. Added after seeding round 7: an entry handed out for subscribing has its messaging-system event subscription on every path (PAIR/cache-count) — without it no event arrives and nothing converges; the cached encodings Model.data/Collection.data are read only by MarshalJSON (WHO/state readers). Added after seeding round 8: a removed cache entry is cleared from every index, the base pointer included (DOM/unregister). Added after seeding round 9: events held back for a resource are let through only after the frame that delivers it (PAIR/rpc-resources). Added after seeding round 10: no test of a field contradicts a store of the same object that dominates it (CONTRA/stale-test). Added after seeding round 11: a run of adds derived from a re-fetch or query answer by one ascending loop moves its index along, so the run does not arrive reversed (TABLE/add-run).",
+		Explanation: "Decides structural necessary conditions of convergence, on every path and for every schedule: (1) in the cache, content, version and the event's update flag change together, and an initial load stores content, version 0 and the loaded state only under the not-loaded test of that same entry (PAIR/version-bump); every event is stamped with the pre-update version, applied by its handler, fanned out inside the unlock window and dropped only by the listed discards (CONF/handle-event); (2) cache content and version are written only by cache tasks under the entry's mutex and read under it (CTX/guarded-by); (3) the subscriber applies an event only when it targets its version and advances by one per update (DOM/version-filter); (4) events are processed only with the event gate known open, discarded before load, and reaccess dispatched first (DOM/event-gate); (5) queues are updated in order-preserving forms (FIFO); (6) all mutable subscription state is touched on the connection worker only (CTX/conn); (7) a resource made sendable again must carry a current snapshot (PAIR/snapshot-current: known finding F13); cached model and collection values are never written in place: every container write in the repository is traced to its origin and none originates from Collection.Values / Model.Values (DOM/copy-on-write); a fanned-out ResourceEvent is read-only, no field of it — also one added later — is stored by subscriber-side code (WHO/event-immutable). Not decided: end-to-end equality of the client copy with the service state, Value.Equal, the reset diff (C12), the collector (C02), JSON encodings, legacy-encoding selection. Added after seeding round 7: an entry handed out for subscribing has its messaging-system event subscription on every path (PAIR/cache-count) — without it no event arrives and nothing converges; the cached encodings Model.data/Collection.data are read only by MarshalJSON (WHO/state readers). Added after seeding round 8: a removed cache entry is cleared from every index, the base pointer included (DOM/unregister). Added after seeding round 9: events held back for a resource are let through only after the frame that delivers it (PAIR/rpc-resources). Added after seeding round 10: no test of a field contradicts a store of the same object that dominates it (CONTRA/stale-test). Added after seeding round 11: a run of adds derived from a re-fetch or query answer by one ascending loop moves its index along, so the run does not arrive reversed (TABLE/add-run). Added after seeding round 12: a release with the collect flag set reaches the collector on every path (DOM/gc-after-release); the pass of the reset model diff that marks missing keys deleted runs for every re-fetched model (DOM/diff-unconditional); a resource event is applied to the resource it names (DOM/event-target).",
 		Assumptions: append([]string{"at most one cache worker runs a resource queue at a time (FIFO/CHAN rules) and one output worker per connection (CTX/conn)"}, baseAssumptions...),
 		Rules: []Rule{
+			{Name: "DOM/event-target", Min: 1, Run: ruleEventTarget, Doc: "a resource event is applied to the resource it names"},
+			{Name: "DOM/diff-unconditional", Min: 1, Run: ruleDiffUnconditional, Doc: "every cached key missing from a re-fetched model is marked deleted"},
+			{Name: "DOM/gc-after-release", Min: 1, Run: ruleGCAfterRelease, Doc: "a released reference reaches the collector on every path: a reference cycle the client dropped is not left marked sent (and then left out of the next resource set that references it)"},
 			{Name: "TABLE/add-run", Min: 0, Run: ruleAddRun, Doc: "derived adds of one ascending loop move their index along: a re-fetch or query answer that inserts a run of values yields them in the announced order"},
 			{Name: "CONTRA/stale-test", Min: 1, Run: ruleStaleTest, Doc: "no test of a state field contradicts a store of the same object that dominates it (the collector looks at the child it means, not at the receiver it has just reset)"},
 			{Name: "PAIR/rpc-resources", Min: 2, Run: ruleRPCResources, Doc: "events held back for a resource are let through only after the frame that delivers the resource: the client's copy starts from the delivered state"},
@@ -62,9 +65,11 @@ func init() {
 
 	register(&Property{
 		ID: "C02", Title: "Every message is applicable: no dangling references or stray events",
-		Explanation: "Decides: the typestate table of Subscription.state (who may move a subscription into which state); populate → hand the frame over → release on every path (PAIR/rpc-resources); the shapes the collector relies on: ReleaseRPCResources marks sent, descends into every reference and then opens the loading gate; populateResources* count an edge once, skip sent resources and mark ToSend before descending; removeCount's counter effects follow its direct/sent/tryDelete arguments; every disposed subscription leaves the connection's table (DOM/ref-shapes); references are released with the parent's sent-ness as it was while the edge was counted (PROV/sent-flag: known finding F6); the sent-count is raised once per created edge (PAIR/edge-sent-once: known finding F8); a re-sendable resource has a current snapshot and a closed gate (PAIR/snapshot-current: known finding F13); no change on a collection, no add/remove on a model, decoded indexes inside [0,len] (DOM/index-kind-guard); no event before the hand-over (DOM/event-gate); recursion census. NOT decided — and this is the core of the property: correctness of the two-pass reference-count collector tryDelete/Unsend and of the indirectsent arithmetic on arbitrary reference graphs. Added after seeding round 7: the encoding cached for the latest protocol is read by MarshalJSON only, so a legacy connection is never handed bytes in the wrong dialect (WHO/encoding-cache). Added after seeding round 8: collection snapshots held by still-loading subscriptions are never written in place (DOM/copy-on-write). Added after seeding round 9: marshalers put text into a frame only through json.Marshal, so every frame is well-formed (PROV/json-text). Added after seeding round 10: CONTRA/stale-test (see C01) for the collector's sent-count bookkeeping. Added after seeding round 11: the unsubscribe event releases every direct subscription (DOM/revoke), so no later event targets a resource the client dropped.",
+		Explanation: "Decides: the typestate table of Subscription.state (who may move a subscription into which state); populate → hand the frame over → release on every path (PAIR/rpc-resources); the shapes the collector relies on: ReleaseRPCResources marks sent, descends into every reference and then opens the loading gate; populateResources* count an edge once, skip sent resources and mark ToSend before descending; removeCount's counter effects follow its direct/sent/tryDelete arguments; every disposed subscription leaves the connection's table (DOM/ref-shapes); references are released with the parent's sent-ness as it was while the edge was counted (PROV/sent-flag: known finding F6); the sent-count is raised once per created edge (PAIR/edge-sent-once: known finding F8); a re-sendable resource has a current snapshot and a closed gate (PAIR/snapshot-current: known finding F13); no change on a collection, no add/remove on a model, decoded indexes inside [0,len] (DOM/index-kind-guard); no event before the hand-over (DOM/event-gate); recursion census. NOT decided — and this is the core of the property: correctness of the two-pass reference-count collector tryDelete/Unsend and of the indirectsent arithmetic on arbitrary reference graphs. Added after seeding round 7: the encoding cached for the latest protocol is read by MarshalJSON only, so a legacy connection is never handed bytes in the wrong dialect (WHO/encoding-cache). Added after seeding round 8: collection snapshots held by still-loading subscriptions are never written in place (DOM/copy-on-write). Added after seeding round 9: marshalers put text into a frame only through json.Marshal, so every frame is well-formed (PROV/json-text). Added after seeding round 10: CONTRA/stale-test (see C01) for the collector's sent-count bookkeeping. Added after seeding round 11: the unsubscribe event releases every direct subscription (DOM/revoke), so no later event targets a resource the client dropped. Added after seeding round 12: the already-handed-over quick exit of populateResources* is taken for exactly the states to-send and sent, by constant propagation over the seven states (TABLE/populate-skip); a release with the collect flag set reaches the collector on every path (DOM/gc-after-release).",
 		Assumptions: baseAssumptions,
 		Rules: []Rule{
+			{Name: "DOM/gc-after-release", Min: 1, Run: ruleGCAfterRelease, Doc: "a released reference reaches the collector on every path: a dropped reference cycle does not stay marked sent"},
+			{Name: "TABLE/populate-skip", Min: 2, Run: rulePopulateSkip, Doc: "only resources that are part of a resource set already (to-send, sent) are skipped when a set is built: a deleted resource the client has dropped is delivered again with the set that references it"},
 			{Name: "DOM/revoke", Min: 1, Run: ruleRevoke, Doc: "an unsubscribe event tells the client to drop the resource: every direct subscription is released with it, so no event is sent for a resource the client no longer holds"},
 			{Name: "CONTRA/stale-test", Min: 1, Run: ruleStaleTest, Doc: "no test of a state field contradicts a store of the same object that dominates it"},
 			{Name: "PROV/json-text", Min: 4, Run: ruleJSONText, Doc: "marshalers put text into a frame only through json.Marshal (every frame is well-formed)"},
@@ -98,6 +103,7 @@ func init() {
 		Explanation: "Decides: the five queues are updated only in order-preserving forms, including the re-queue of not-yet-processed events before newer ones (FIFO/queues); a worker is woken only on the empty→non-empty transition of a resource queue and never while locks are set (DOM/inch-send), so one worker at a time runs a queue; handleEvent stamps, applies and fans out inside one unlock window with no go statement (CONF/handle-event); Subscriber.Event only enqueues and the continuation of every handler runs on the connection worker (CTX/conn); an applied update advances cache and subscriber versions by exactly one and a stamped event is applied only at its version, hence at most once (PAIR/version-bump, DOM/version-filter); nothing is processed before the hand-over or while the gate is closed, with the in-loop re-test (DOM/event-gate); the bookkeeping of a callback slot (in-flight flag, cached verdict, the slot itself) is finished before the slot's continuations run, so a re-access started from inside a callback is not lost (DOM/drain-reentrancy). Not decided: the capacity countdown of the lock list, delivery by the socket, the 'equivalent derived sequence' exception (C12). Added after seeding round 7: the held-back events of a frame's resources are let through only after the frame that first hands the resources over (PAIR/rpc-resources). Added after seeding round 8: in the edit-script back-tracking, branches that compare the same two LCS-table cells cover every ordering, so the derived sequence is not cut short on a tie (TABLE/lcs-exhaustive; decides the present formulation of the algorithm only). Added after seeding round 9: a query event takes one event lock per query request and each is released once, so later events do not overtake pending answers (PAIR/query-lock). Added after seeding round 10: message handlers take messages in synchronously, in arrival order (FIFO/handler-sync); the loading gate of an already sent resource is not opened again (DOM/ref-shapes). Added after seeding round 11: TABLE/add-run (see C01).",
 		Assumptions: baseAssumptions,
 		Rules: []Rule{
+			{Name: "DOM/event-target", Min: 1, Run: ruleEventTarget, Doc: "a resource event is applied to the resource it names"},
 			{Name: "TABLE/add-run", Min: 0, Run: ruleAddRun, Doc: "derived adds of one ascending loop move their index along"},
 			{Name: "DOM/ref-shapes", Min: 1, Run: ruleRefShapes, Doc: "the loading gate of a resource is opened by the release that first hands it over, not again for an already sent one (held-back events stay behind the event that delivers what they need)"},
 			{Name: "FIFO/handler-sync", Min: 2, Run: ruleHandlerSync, Doc: "message handlers take messages in synchronously (no go statement before the hand-over to a queue): arrival order is kept"},
@@ -125,6 +131,7 @@ func init() {
 		Explanation: "Decides: every data hand-out (GetRPCResources(false), a loaded subscription handed to the HTTP encoder) lies on a continuation path behind a get grant and not behind a direct-response meta status (DOM/gates); Access.CanGet grants only for no error ∧ get == true and tests the error first (TABLE/access); Cache.Access turns request and decode errors into Access.Error (LIN on its body); a denied request releases its direct subscription (PAIR/direct-count); the verdict is cached only for a result or system.accessDenied, by a live subscription (DOM/verdict-store) and cleared on every trigger before it can be reused (DOM/invalidate); the access request carries the token as the connection holds it when the request is sent (PROV/token-cid) and a reaccess event always reaches the subscribers (CONF/handle-event). Not decided: whether an access answer that was in flight when a trigger arrived is still valid (a runtime relation). Added after seeding round 7: a direct subscription that is kept lies behind a get grant on every continuation (PAIR/direct-count). Added after seeding round 10: an access answer carrying an error is an error, whatever else it carries (DOM/error-wins). Added after seeding round 11: the list of requests waiting on one access check is drained to its end — no waiter is skipped because an earlier one disposed the subscription (LIN/drain).",
 		Assumptions: baseAssumptions,
 		Rules: []Rule{
+			{Name: "TABLE/match-literal", Min: 1, Run: ruleMatchLiteral, Doc: "a system reset with a wildcard access pattern invalidates the grant of every matching resource"},
 			{Name: "PAIR/access-inflight", Min: 1, Run: ruleAccessInflight, Doc: "every waiter of a shared access request is parked before the request goes out and handed its answer exactly once"},
 			{Name: "LIN/drain", Min: 1, Run: ruleDrainOf("server.Subscription.accessCallbacks"), Doc: "every request waiting on a shared access check is handed the answer (the error, when access is denied): the drain of the waiting list runs to its end"},
 			{Name: "DOM/error-wins", Min: 3, Run: ruleErrorWins, Doc: "a service answer carrying an error member is decoded as that error, whatever else it carries (an access error never grants)"},
@@ -145,9 +152,10 @@ func init() {
 
 	register(&Property{
 		ID: "C05", Title: "Call gating and token currency",
-		Explanation: "Decides: both sites of Cache.Call lie behind a call grant on the same continuation path, for the very action value that was checked, and not behind a direct-response status (DOM/gates); CanCall grants only through call == \"*\" or an exact list entry, error first, never for an empty list (TABLE/access); at all 8 request sites the token argument is the connection's token read in the requesting task and the requester is that same connection; the payload builders use the requester's CID() and the given token (PROV/token-cid); token/tid are written only by setToken and every token change re-checks every subscription of the connection, unconditionally (DOM/token-fanout); the cached verdict is cleared on every trigger and before loadAccess can short-circuit on it (DOM/invalidate); the token is read on the connection worker only (CTX/conn: known finding F11 — the throttled re-access reads it on a fresh goroutine); a reaccess event always reaches the subscribers of the resource, also while it is being reset (CONF/handle-event). Not decided: the CanCall list scanner for all strings; validity of an access answer in flight at trigger time. Added after seeding round 7: a token event stores the new token before the subscriptions are re-accessed (DOM/token-fanout). Added after seeding round 8: an invalid pattern in a reset's list is skipped and does not end the scan (DOM/valid-patterns). Added after seeding round 9: every re-access trigger is carried out or recorded — none is dropped because a re-check is already pending (DOM/invalidate). Added after seeding round 10: an access answer carrying an error is an error, whatever else it carries (DOM/error-wins).",
+		Explanation: "Decides: both sites of Cache.Call lie behind a call grant on the same continuation path, for the very action value that was checked, and not behind a direct-response status (DOM/gates); CanCall grants only through call == \"*\" or an exact list entry, error first, never for an empty list (TABLE/access); at all 8 request sites the token argument is the connection's token read in the requesting task and the requester is that same connection; the payload builders use the requester's CID() and the given token (PROV/token-cid); token/tid are written only by setToken and every token change re-checks every subscription of the connection, unconditionally (DOM/token-fanout); the cached verdict is cleared on every trigger and before loadAccess can short-circuit on it (DOM/invalidate); the token is read on the connection worker only (CTX/conn: known finding F11 — the throttled re-access reads it on a fresh goroutine); a reaccess event always reaches the subscribers of the resource, also while it is being reset (CONF/handle-event). Not decided: the CanCall list scanner for all strings; validity of an access answer in flight at trigger time. Added after seeding round 7: a token event stores the new token before the subscriptions are re-accessed (DOM/token-fanout). Added after seeding round 8: an invalid pattern in a reset's list is skipped and does not end the scan (DOM/valid-patterns). Added after seeding round 9: every re-access trigger is carried out or recorded — none is dropped because a re-check is already pending (DOM/invalidate). Added after seeding round 10: an access answer carrying an error is an error, whatever else it carries (DOM/error-wins). Added after seeding round 12: every path of ResourcePattern.Match that returns the comparison of the name with the pattern text has established that the pattern has no wildcard (TABLE/match-literal; one shape condition of the matcher, not its correctness).",
 		Assumptions: baseAssumptions,
 		Rules: []Rule{
+			{Name: "TABLE/match-literal", Min: 1, Run: ruleMatchLiteral, Doc: "a system reset with a wildcard access pattern reaches every matching resource: a wildcard pattern is never matched by comparing texts"},
 			{Name: "DOM/error-wins", Min: 3, Run: ruleErrorWins, Doc: "a service answer carrying an error member is decoded as that error, whatever else it carries (an access error never grants)"},
 			{Name: "DOM/valid-patterns", Min: 1, Run: ruleValidPatterns, Doc: "a system reset re-validates the cached access of every resource matching a valid pattern of its list: an invalid pattern is skipped, it does not end the scan"},
 			{Name: "DOM/reset-protocol", Min: 1, Run: ruleResetProtocol, Doc: "a system reset with a matching access pattern reaches every subscriber, whatever the state of the resource"},
@@ -170,6 +178,7 @@ func init() {
 		Explanation: "Decides: every store of a new token on a connection that had one is followed by a reaccess of every subscription, unconditionally per subscription (DOM/token-fanout); reaccess events bypass the not-loaded filters in the cache and in the subscription (CONF/handle-event, DOM/event-gate); the verdict is cleared and the event gate closed before the access request, the continuation validates access and reopens the gate exactly once (DOM/invalidate); denial removes all direct subscriptions and sends the unsubscribe event (DOM/revoke); system reset access patterns reach every subscriber of the base and of every cached query (DOM/reset-protocol); a reset access pattern re-checks every subscriber of a matching resource whatever the resource's state (DOM/reset-protocol, resource level); slot bookkeeping before continuations (DOM/drain-reentrancy). Not decided: timing; pattern matching (C12). Added after seeding round 8: an invalid pattern in a reset's list is skipped and does not end the scan (DOM/valid-patterns). Added after seeding round 10: the system event handler starts no goroutine: a reset and the events behind it keep their order (FIFO/handler-sync). Added after seeding round 11: the access request of a re-check reads the connection's token in the task that sends it, so a check that waited for a throttle slot carries the current token (PROV/token-cid). Added after the mutation sweep of round 11: the in-flight flag of the shared access request is lowered with every answer, in both twins (PAIR/access-inflight).",
 		Assumptions: baseAssumptions,
 		Rules: []Rule{
+			{Name: "TABLE/match-literal", Min: 1, Run: ruleMatchLiteral, Doc: "a wildcard access pattern of a system reset is never matched by comparing texts"},
 			{Name: "PAIR/access-inflight", Min: 1, Run: ruleAccessInflight, Doc: "a re-check after a revocation trigger is not parked behind a request that is no longer outstanding (the in-flight flag is lowered with every answer)"},
 			{Name: "PROV/token-cid", Min: 5, Run: ruleTokenCID, Doc: "a re-check carries the token the connection holds when the request is sent, not one captured when the check was queued behind a throttle"},
 			{Name: "FIFO/handler-sync", Min: 2, Run: ruleHandlerSync, Doc: "message handlers take messages in synchronously (no go statement before the hand-over to a queue): arrival order is kept"},
@@ -187,9 +196,10 @@ func init() {
 
 	register(&Property{
 		ID: "C07", Title: "Exactly one response per client request",
-		Explanation: "Decides, for every path and schedule: rpc.HandleRequest performs exactly one Reply per dispatched request, directly or inside a handler continuation, and Reply is called from nowhere else (LIN/reply); every continuation parameter of the handlers and combinators is consumed exactly once on every full path — called, delegated to another linear function, or parked in a pending slot (LIN/continuations); pending callback slots are cleared only after draining, or when the connection itself goes away (LIN/drain: known finding F9 — Dispose drops ready callbacks on a live connection); an answered throttled request always frees its slot, so the access checks queued behind it — and the client requests waiting for them — are not stranded (PAIR/throttle-slot); continuations run on the connection worker (CTX/conn); every outcome of a get response collects the subscribers waiting on it (DOM/answer-waiting); slot bookkeeping is finished before continuations run (DOM/drain-reentrancy). Not decided: liveness (that a parked continuation is eventually run), the readyCallback.loading countdown arithmetic. Added after seeding round 7: a subscription gives its count on a ready callback back only after descending into its references, so the count cannot reach zero twice (PAIR/ready-count). Added after seeding round 9: marshalers put text into a frame only through json.Marshal: a frame that fails to encode answers nothing (PROV/json-text). Added after seeding round 10: OnReady runs its callback at once only for a ready subscription (DOM/onready-inline).  Added after the mutation sweep of round 11: the bookkeeping of a shared access request — flag raised and caller parked before the request, flag lowered and list emptied before the hand-over — holds on every path of both twins (PAIR/access-inflight).",
+		Explanation: "Decides, for every path and schedule: rpc.HandleRequest performs exactly one Reply per dispatched request, directly or inside a handler continuation, and Reply is called from nowhere else (LIN/reply); every continuation parameter of the handlers and combinators is consumed exactly once on every full path — called, delegated to another linear function, or parked in a pending slot (LIN/continuations); pending callback slots are cleared only after draining, or when the connection itself goes away (LIN/drain: known finding F9 — Dispose drops ready callbacks on a live connection); an answered throttled request always frees its slot, so the access checks queued behind it — and the client requests waiting for them — are not stranded (PAIR/throttle-slot); continuations run on the connection worker (CTX/conn); every outcome of a get response collects the subscribers waiting on it (DOM/answer-waiting); slot bookkeeping is finished before continuations run (DOM/drain-reentrancy). Not decided: liveness (that a parked continuation is eventually run), the readyCallback.loading countdown arithmetic. Added after seeding round 7: a subscription gives its count on a ready callback back only after descending into its references, so the count cannot reach zero twice (PAIR/ready-count). Added after seeding round 9: marshalers put text into a frame only through json.Marshal: a frame that fails to encode answers nothing (PROV/json-text). Added after seeding round 10: OnReady runs its callback at once only for a ready subscription (DOM/onready-inline).  Added after the mutation sweep of round 11: the bookkeeping of a shared access request — flag raised and caller parked before the request, flag lowered and list emptied before the hand-over — holds on every path of both twins (PAIR/access-inflight). Added after seeding round 12: PAIR/gc-countdown serves this property too.",
 		Assumptions: append([]string{"mq.Client.SendRequest completes exactly once (C18)", "a continuation refused by wsConn.Enqueue because the connection is disposing is an accepted drop"}, baseAssumptions...),
 		Rules: []Rule{
+			{Name: "PAIR/gc-countdown", Min: 1, Run: ruleGCCountdown, Doc: "the collector's count-down works on the counts as they are: a subscription is not made ready (and its pending get answer then discarded as a repeat) while a request still waits on it"},
 			{Name: "PAIR/access-inflight", Min: 1, Run: ruleAccessInflight, Doc: "the waiting list of a shared access request is emptied and its in-flight flag lowered before the answer is handed over: no request is answered twice, none is parked for ever"},
 			{Name: "DOM/onready-inline", Min: 1, Run: ruleOnReadyInline, Doc: "OnReady runs its callback at once only for a ready subscription (everything below it loaded)"},
 			{Name: "PROV/json-text", Min: 4, Run: ruleJSONText, Doc: "marshalers put text into a frame only through json.Marshal (a frame that fails to encode answers nothing)"},
@@ -213,6 +223,7 @@ func init() {
 		Explanation: "Decides: on every continuation path of every function that takes a direct subscription the count is released exactly once on every failure and on every outcome of get-type handlers, kept exactly on the success of subscribe-type handlers, and never released when Subscribe itself failed (PAIR/direct-count); an unsubscribe removes counts only behind the test direct >= count with the same count (DOM/unsub-precond); the count parameter is validated as positive (DOM/count-param); direct++ only below the limit (DOM/sub-limit); revocation and delete remove all direct subscriptions (DOM/revoke); direct is written by addCount/removeCount only; params that carry no count unsubscribe once: a decoded-params path reaches UnsubscribeResource with the default 1 (DOM/unsub-precond). Not decided: numeric equality of the counter with the response history (it is the sum of the per-path facts). Added after seeding round 7: a connection registers a Subscription object under a resource id only on the not-found edge of the lookup of that id (DOM/one-sub-per-rid); the collector's mark pass keeps every node that is held or reached from a kept node (DOM/gc-mark). Added after seeding round 9: a request answered with success before any failure keeps its direct subscription (PAIR/direct-count). Added after seeding round 11: the unsubscribe count is decoded as an integer and reaches the handler unconverted, so a fractional count cannot pass the 'no more than held' test by truncation (DOM/count-integer).",
 		Assumptions: append([]string{"LIN (C07): every handler replies exactly once", "a task refused by a disposing connection needs no release (dispose releases everything)"}, baseAssumptions...),
 		Rules: []Rule{
+			{Name: "DOM/gc-after-release", Min: 1, Run: ruleGCAfterRelease, Doc: "a released reference reaches the collector on every path: nothing is left behind on a reference cycle"},
 			{Name: "DOM/count-integer", Min: 2, Run: ruleCountInteger, Doc: "the unsubscribe count is an integer as decoded: a fractional count is refused, not truncated"},
 			{Name: "DOM/gc-mark", Min: 1, Run: ruleGCMark, Doc: "the collector marks a held node, or one reached from a kept node, kept — also over an earlier deletion mark: a subscription shared with a kept parent is not disposed"},
 			{Name: "DOM/one-sub-per-rid", Min: 1, Run: ruleOneSubPerRID, Doc: "a connection registers a new Subscription object for a resource ID only where the lookup of that ID found none"},
@@ -229,9 +240,11 @@ func init() {
 
 	register(&Property{
 		ID: "C09", Title: "Cache entry lifecycle: subscribed before fetch, kept while used, then freed",
-		Explanation: "Decides: getSubscription counts one use on every successful return and none on an error return, errors only when an mq subscription was requested, and with subscribe=true returns only after the entry's mq subscription exists (PAIR/cache-count); callers release the use or hand it to addSubscriber exactly once; a count is released iff a membership was removed and bulk releases equal the set dropped (PAIR/membership); a late or repeated Loaded owns or releases the resource exactly once (PAIR/loaded-handover); eviction re-checks the count under the locks, addCount cancels a pending eviction, removeCount queues the entry exactly at zero, gauges follow the count (DOM/evict); get requests are issued only from addSubscriber / reset (DOM/sub-before-get); a removed entry is cleared from every index it is findable through — base (also for the empty alias), queries, links (DOM/unregister). Not decided: the eviction delay and timers, gauges reading zero at a particular moment. Added after seeding round 7: the connection-side collector marks a held node, or one reached from a kept node, kept — also over an earlier deletion mark — so a shared subscription's cache use is not given back under a live client subscription (DOM/gc-mark). Added after seeding round 8: an entry registered in the cache's index is counted on that very path, because the eviction queue is entered only by releasing a count (PAIR/cache-count). Added after seeding round 9: the use count of a cache entry is touched under the entry's mutex by takers and releasers alike (CTX/guarded-by). Added after seeding round 10: a failed get — denied access included — leaves no connection-level subscription behind (PAIR/direct-count). Added after seeding round 11: an event discarded by the cache is not fanned out either (CONF/handle-event): subscribers that dispose themselves on a delete the cache did not apply would leave their use counts behind.",
+		Explanation: "Decides: getSubscription counts one use on every successful return and none on an error return, errors only when an mq subscription was requested, and with subscribe=true returns only after the entry's mq subscription exists (PAIR/cache-count); callers release the use or hand it to addSubscriber exactly once; a count is released iff a membership was removed and bulk releases equal the set dropped (PAIR/membership); a late or repeated Loaded owns or releases the resource exactly once (PAIR/loaded-handover); eviction re-checks the count under the locks, addCount cancels a pending eviction, removeCount queues the entry exactly at zero, gauges follow the count (DOM/evict); get requests are issued only from addSubscriber / reset (DOM/sub-before-get); a removed entry is cleared from every index it is findable through — base (also for the empty alias), queries, links (DOM/unregister). Not decided: the eviction delay and timers, gauges reading zero at a particular moment. Added after seeding round 7: the connection-side collector marks a held node, or one reached from a kept node, kept — also over an earlier deletion mark — so a shared subscription's cache use is not given back under a live client subscription (DOM/gc-mark). Added after seeding round 8: an entry registered in the cache's index is counted on that very path, because the eviction queue is entered only by releasing a count (PAIR/cache-count). Added after seeding round 9: the use count of a cache entry is touched under the entry's mutex by takers and releasers alike (CTX/guarded-by). Added after seeding round 10: a failed get — denied access included — leaves no connection-level subscription behind (PAIR/direct-count). Added after seeding round 11: an event discarded by the cache is not fanned out either (CONF/handle-event): subscribers that dispose themselves on a delete the cache did not apply would leave their use counts behind. Added after seeding round 12: the reference throttle's queue is only appended to and popped (FIFO/queues).",
 		Assumptions: baseAssumptions,
 		Rules: []Rule{
+			{Name: "FIFO/queues", Min: 1, Run: ruleFIFO("rescache.Throttle.queue"), Doc: "a disposed subscription drops no get request waiting in the shared reference throttle: the cache entries those requests belong to already count the subscriber and would never be released"},
+			{Name: "PAIR/alias-recorded", Min: 1, Run: ruleAliasRecorded, Doc: "every alias of a cache resource is on its alias list, so unregister clears it"},
 			{Name: "CONF/handle-event", Min: 1, Run: ruleHandleEvent, Doc: "an event the cache drops is dropped for the subscribers too: a delete passed on without being applied makes them leave while the cache keeps their use counts"},
 			{Name: "PAIR/direct-count", Min: 2, Run: rulePairDirect, Doc: "a get that fails (denied access included) leaves no connection-level subscription behind, so the cache entry loses its last user"},
 			{Name: "CTX/guarded-by", Min: 30, Run: ruleGuardedBy, Doc: "the use count of a cache entry is touched under the entry's mutex by both sides (takes by subscribers, releases by cache tasks): no update is lost"},
@@ -250,9 +263,10 @@ func init() {
 
 	register(&Property{
 		ID: "C10", Title: "Connection isolation: ids, tokens and events never cross connections",
-		Explanation: "Decides: every request site sends the requesting connection's own id and its current token (PROV/token-cid); no value derived from the connection id, the {cid}-expanded resource name/query or the cache's resource name reaches a client-facing sink — event names, resource-set keys, resource-response rids, hrefs (PROV/cid-taint, backward provenance over the whole program); ExpandCID is called on the service-facing side only and expands every tag; token resets re-authenticate only connections whose own tid is listed; events are fanned out to the subscriber set of the resource being handled (DOM/fanout-set); no subscriber-side store into the shared ResourceEvent, whatever the field (WHO/event-immutable). Not decided: what services put into payloads. Added after seeding round 7: the collector rules (PAIR/gc-countdown, DOM/gc-mark) serve this property too: a connection that released a resource on a reference cycle keeps no subscription to it and receives none of its events. Added after seeding round 10: request payloads are fresh encodings owned by their request, never the contents of a reused buffer (PROV/payload-fresh). Added after seeding round 11: the name and the query a subscription addresses the service with both derive from ExpandCID applied to the whole resource id (PROV/cid-expand-whole).",
+		Explanation: "Decides: every request site sends the requesting connection's own id and its current token (PROV/token-cid); no value derived from the connection id, the {cid}-expanded resource name/query or the cache's resource name reaches a client-facing sink — event names, resource-set keys, resource-response rids, hrefs (PROV/cid-taint, backward provenance over the whole program); ExpandCID is called on the service-facing side only and expands every tag; token resets re-authenticate only connections whose own tid is listed; events are fanned out to the subscriber set of the resource being handled (DOM/fanout-set); no subscriber-side store into the shared ResourceEvent, whatever the field (WHO/event-immutable). Not decided: what services put into payloads. Added after seeding round 7: the collector rules (PAIR/gc-countdown, DOM/gc-mark) serve this property too: a connection that released a resource on a reference cycle keeps no subscription to it and receives none of its events. Added after seeding round 10: request payloads are fresh encodings owned by their request, never the contents of a reused buffer (PROV/payload-fresh). Added after seeding round 11: the name and the query a subscription addresses the service with both derive from ExpandCID applied to the whole resource id (PROV/cid-expand-whole). Added after seeding round 12: in the message handler a resource event is applied to the entry's base resource only (DOM/event-target).",
 		Assumptions: baseAssumptions,
 		Rules: []Rule{
+			{Name: "DOM/event-target", Min: 1, Run: ruleEventTarget, Doc: "a resource event reaches the subscribers of the resource it names only — not those of its query variants"},
 			{Name: "PROV/cid-expand-whole", Min: 2, Run: ruleCIDExpandWhole, Doc: "name and query of a subscription both derive from the {cid}-expanded whole resource id: no tag reaches the service literally, no two connections share a tagged query"},
 			{Name: "PROV/payload-fresh", Min: 3, Run: rulePayloadFresh, Doc: "request payloads are fresh encodings owned by their request, never the contents of a reused buffer (no cross-connection id/token)"},
 			{Name: "DOM/gc-mark", Min: 1, Run: ruleGCMark, Doc: "the collector neither keeps released nor disposes still-held subscriptions of a connection"},
@@ -268,9 +282,10 @@ func init() {
 
 	register(&Property{
 		ID: "C11", Title: "Disconnect cleanup at any moment",
-		Explanation: "Decides: wsConn.dispose sets the flag and closes the worker channel in one critical section, removes the connection from the cache and from token-reset fan-out, unsubscribes the connection events, disposes every subscription, and leaves the registry (DOM/dispose); Subscription.Dispose releases references and exactly one cache use; Enqueue/Subscribe/Unsubscribe refuse a disposing connection; a late Loaded releases the cache use (PAIR/loaded-handover); late access answers are absorbed (DOM/verdict-store); no call/auth request is issued by a continuation of a disposed connection (CTX/post-dispose); a refused task never strands a throttle slot of other connections (PAIR/throttle-slot); temporary HTTP connections are disposed exactly once on every exit (LIN/temp-conn); sends on the worker channel cannot hit the close (CHAN); teardown takes the connection and cache mutexes in an order that cannot deadlock against the token-reset fan-out (LOCK/order). Not decided: 'no effect on other connections' as a runtime fact beyond the pairing rules of C09. Added after seeding round 7: every service request reads the connection's token and is therefore confined to the connection's worker (CTX/conn), whose queue refuses tasks after the close; a named function that sends a call/auth request hands the dispose test to each closure calling it (CTX/post-dispose). Added after seeding round 8: no function run with the event subscription's mutex held (the tasks of its worker) calls something that takes that mutex again (LOCK/order with held-on-entry states). Added after seeding round 9: a re-access trigger on a disposed subscription starts no access request (DOM/invalidate). Added after seeding round 11: the disposing test that keeps a continuation from sending a call/auth request lies in the continuation itself — a test in front of the creation of the continuation says nothing about the time it runs (CTX/post-dispose).",
+		Explanation: "Decides: wsConn.dispose sets the flag and closes the worker channel in one critical section, removes the connection from the cache and from token-reset fan-out, unsubscribes the connection events, disposes every subscription, and leaves the registry (DOM/dispose); Subscription.Dispose releases references and exactly one cache use; Enqueue/Subscribe/Unsubscribe refuse a disposing connection; a late Loaded releases the cache use (PAIR/loaded-handover); late access answers are absorbed (DOM/verdict-store); no call/auth request is issued by a continuation of a disposed connection (CTX/post-dispose); a refused task never strands a throttle slot of other connections (PAIR/throttle-slot); temporary HTTP connections are disposed exactly once on every exit (LIN/temp-conn); sends on the worker channel cannot hit the close (CHAN); teardown takes the connection and cache mutexes in an order that cannot deadlock against the token-reset fan-out (LOCK/order). Not decided: 'no effect on other connections' as a runtime fact beyond the pairing rules of C09. Added after seeding round 7: every service request reads the connection's token and is therefore confined to the connection's worker (CTX/conn), whose queue refuses tasks after the close; a named function that sends a call/auth request hands the dispose test to each closure calling it (CTX/post-dispose). Added after seeding round 8: no function run with the event subscription's mutex held (the tasks of its worker) calls something that takes that mutex again (LOCK/order with held-on-entry states). Added after seeding round 9: a re-access trigger on a disposed subscription starts no access request (DOM/invalidate). Added after seeding round 11: the disposing test that keeps a continuation from sending a call/auth request lies in the continuation itself — a test in front of the creation of the continuation says nothing about the time it runs (CTX/post-dispose). Added after seeding round 12: PAIR/membership serves this property too.",
 		Assumptions: baseAssumptions,
 		Rules: []Rule{
+			{Name: "PAIR/membership", Min: 1, Run: rulePairMembership, Doc: "a repeated clean-up for a connection that is gone releases nothing twice: other connections' shared resources keep their counts"},
 			{Name: "DOM/invalidate", Min: 1, Run: ruleInvalidate, Doc: "a re-access trigger on a disposed subscription starts no access request"},
 			{Name: "CTX/conn", Min: 25, Run: ruleConfinement, Doc: "every service request on a connection's behalf reads its token and is therefore issued from that connection's worker (whose queue refuses tasks after the close) — never straight from a service-answer callback"},
 			{Name: "FIFO/queues", Min: 1, Run: ruleFIFO("rescache.Throttle.queue"), Doc: "a disposed subscription drops no request waiting in the shared throttle (the cache entry it already counted a use on would never be released)"},
@@ -288,9 +303,11 @@ func init() {
 
 	register(&Property{
 		ID: "C12", Title: "System reset re-fetches exactly the matching resources with a correct diff",
-		Explanation: "Decides the plumbing and protocol clauses only: a matching entry is re-fetched once, with get.<name> and its normalised query, unless a reset is already outstanding; the resetting flag is set before the request and cleared before the answer is processed, in both the throttled and the unthrottled twin; the base resource (unless it is a link) and every cached query variant are visited exactly once, for resources and for access (DOM/reset-protocol); derived events go through handleEvent, state events are dropped only while resetting (CONF/handle-event); invalid patterns match nothing at the recogniser level (TABLE/reject-set); only valid patterns are matched (DOM/valid-patterns); content is replaced copy-on-write (DOM/copy-on-write). NOT decided — the heart of the property: wildcard matching semantics for all names, that the model diff and the LCS edit script transform old into new with indexes in range, that unchanged content yields no event. Added after seeding round 8: TABLE/lcs-exhaustive (see C03) for the derived add/remove sequence of a re-fetched collection. Added after seeding round 11: the kind of an answer is decided by which member is present, never by its size, so a reset that empties a resource produces its remove / delete-action events (TABLE/kind-by-presence); a run of adds emitted by one ascending loop moves its index along (TABLE/add-run). ",
+		Explanation: "Decides the plumbing and protocol clauses only: a matching entry is re-fetched once, with get.<name> and its normalised query, unless a reset is already outstanding; the resetting flag is set before the request and cleared before the answer is processed, in both the throttled and the unthrottled twin; the base resource (unless it is a link) and every cached query variant are visited exactly once, for resources and for access (DOM/reset-protocol); derived events go through handleEvent, state events are dropped only while resetting (CONF/handle-event); invalid patterns match nothing at the recogniser level (TABLE/reject-set); only valid patterns are matched (DOM/valid-patterns); content is replaced copy-on-write (DOM/copy-on-write). NOT decided — the heart of the property: wildcard matching semantics for all names, that the model diff and the LCS edit script transform old into new with indexes in range, that unchanged content yields no event. Added after seeding round 8: TABLE/lcs-exhaustive (see C03) for the derived add/remove sequence of a re-fetched collection. Added after seeding round 11: the kind of an answer is decided by which member is present, never by its size, so a reset that empties a resource produces its remove / delete-action events (TABLE/kind-by-presence); a run of adds emitted by one ascending loop moves its index along (TABLE/add-run).  Added after seeding round 12: every path of ResourcePattern.Match that returns the comparison of the name with the pattern text has established that the pattern has no wildcard (TABLE/match-literal; one shape condition of the matcher, not its correctness). Added after seeding round 12: the marking of missing keys runs for every re-fetched model (DOM/diff-unconditional).",
 		Assumptions: baseAssumptions,
 		Rules: []Rule{
+			{Name: "DOM/diff-unconditional", Min: 1, Run: ruleDiffUnconditional, Doc: "every cached key missing from a re-fetched model is marked deleted, whatever the sizes of the two models"},
+			{Name: "TABLE/match-literal", Min: 1, Run: ruleMatchLiteral, Doc: "a wildcard pattern is never matched by comparing texts"},
 			{Name: "TABLE/add-run", Min: 0, Run: ruleAddRun, Doc: "derived adds of one ascending loop move their index along (adds at one fixed index arrive reversed)"},
 			{Name: "TABLE/kind-by-presence", Min: 3, Run: ruleKindByPresence, Doc: "a re-fetched resource that is empty ({} / []) is a valid answer of its kind: the kind is decided by the member that is present, never by its size"},
 			{Name: "TABLE/remove-run", Min: 0, Run: ruleRemoveRun, Doc: "derived removes of one loop do not use the loop's ascending counter as index (each remove shifts the rest)"},
@@ -308,9 +325,11 @@ func init() {
 
 	register(&Property{
 		ID: "C13", Title: "Query resources: shared normalised queries, atomic query-event handling",
-		Explanation: "Decides: the queue is locked with len(queries) of the map that is iterated unmodified, each iteration releases exactly one lock on every outcome of its request (all early returns are inside the unlock task), nothing returns between locking and the end of the iteration, locks are installed only for a positive count; the request goes to the event's subject with the range key as query; answers are applied through per-iteration values, full model/collection answers only behind the matching kind test (PAIR/query-lock); no deferred closure captures a shared loop variable (DOM/loopvar); an initial load re-initialises an entry only under the not-loaded test of that same entry, so an alias arriving later cannot reset a shared resource (PAIR/version-bump); a repeated Loaded is ignored (LIN/loaded-once); Enqueue wakes no worker while locks are set (DOM/inch-send); unregister clears base / queries / links including the empty alias (DOM/unregister); every outcome of a get response collects the waiting subscribers (DOM/answer-waiting). Not decided: the capacity countdown arithmetic of the lock list; two aliasing gets in flight beyond the loaded-once guard. Added after seeding round 8: a query request that got no answer changes nothing — every path of its completion that applies something has established that the request error is nil (DOM/query-request-error). Added after seeding round 10: a deleted query resource drops its subscribers (PAIR/membership). Added after seeding round 11: a query event is dropped only by the listed discards — nothing cached under a query, malformed payload, missing subject (CONF/query-event-discards).",
+		Explanation: "Decides: the queue is locked with len(queries) of the map that is iterated unmodified, each iteration releases exactly one lock on every outcome of its request (all early returns are inside the unlock task), nothing returns between locking and the end of the iteration, locks are installed only for a positive count; the request goes to the event's subject with the range key as query; answers are applied through per-iteration values, full model/collection answers only behind the matching kind test (PAIR/query-lock); no deferred closure captures a shared loop variable (DOM/loopvar); an initial load re-initialises an entry only under the not-loaded test of that same entry, so an alias arriving later cannot reset a shared resource (PAIR/version-bump); a repeated Loaded is ignored (LIN/loaded-once); Enqueue wakes no worker while locks are set (DOM/inch-send); unregister clears base / queries / links including the empty alias (DOM/unregister); every outcome of a get response collects the waiting subscribers (DOM/answer-waiting). Not decided: the capacity countdown arithmetic of the lock list; two aliasing gets in flight beyond the loaded-once guard. Added after seeding round 8: a query request that got no answer changes nothing — every path of its completion that applies something has established that the request error is nil (DOM/query-request-error). Added after seeding round 10: a deleted query resource drops its subscribers (PAIR/membership). Added after seeding round 11: a query event is dropped only by the listed discards — nothing cached under a query, malformed payload, missing subject (CONF/query-event-discards). Added after seeding round 12: PAIR/alias-recorded (see C15); events are fanned out to the subscriber set as it is (DOM/fanout-set).",
 		Assumptions: baseAssumptions,
 		Rules: []Rule{
+			{Name: "DOM/fanout-set", Min: 2, Run: ruleFanoutSet, Doc: "events derived from a query answer reach every subscriber of the shared resource, also one aliased onto it after it was warm"},
+			{Name: "PAIR/alias-recorded", Min: 1, Run: ruleAliasRecorded, Doc: "every alias of a normalised query resource is on its alias list"},
 			{Name: "CONF/query-event-discards", Min: 1, Run: ruleQueryEventDiscards, Doc: "a query event is dropped only by the listed discards (nothing cached under a query, malformed payload, missing subject): otherwise one request per cached query goes out"},
 			{Name: "PAIR/membership", Min: 1, Run: rulePairMembership, Doc: "a deleted query resource drops its subscribers: a later unsubscribe on it cannot evict the resource newly cached under the same query"},
 			{Name: "DOM/query-request-error", Min: 1, Run: ruleQueryRequestError, Doc: "a failed query request (no answer) changes nothing and is not read as system.notFound"},
@@ -331,6 +350,7 @@ func init() {
 		Explanation: "Decides: at all 10 publish/subscribe sites the subject is assembled only from literal prefixes and values whose every provenance leaf (backward over the whole program: parameters through the call graph, fields through all their stores, decoders) is validated by IsValidRID/IsValidRIDPart on the path to its use, trusted (xid, constants) or one of the two service-addressed subjects; the query part of a resource id never reaches a subject (PROV/subject); the recognisers reject control characters, space, DEL, non-ASCII, '*', '>' (and '.', '?' for parts) on every path of a scan step (TABLE/reject-set, constant propagation per character); every subject is validated hence invalid input reaches no service request. Not decided: the recognisers on whole strings (token structure), PathToRID decoding of every byte string. Added after seeding round 7: the resource id is cut into name and query at its first '?', the position up to which the validator checks (TABLE/rid-split). Added after seeding round 8: an HTTP path is cut at '/' before its segments are percent-decoded (TABLE/path-split). Added after seeding round 9: an invalid HTTP resource id is rejected before the temporary connection — and with it header-auth traffic — exists (DOM/validate-before-conn). Added after seeding round 11: PROV/cid-expand-whole (see C10).",
 		Assumptions: baseAssumptions,
 		Rules: []Rule{
+			{Name: "TABLE/dots-after-prefix", Min: 2, Run: ruleDotsAfterPrefix, Doc: "the dot test of the HTTP path readers looks at the part behind the api prefix"},
 			{Name: "PROV/cid-expand-whole", Min: 2, Run: ruleCIDExpandWhole, Doc: "every {cid} tag of the resource id — name and query — is expanded before the id is cut into the parts that address the service"},
 			{Name: "DOM/validate-before-conn", Min: 2, Run: ruleValidateBeforeConn, Doc: "an invalid HTTP resource id is rejected before the temporary connection (header auth, conn subscription) exists"},
 			{Name: "TABLE/path-split", Min: 4, Run: rulePathSplit, Doc: "an HTTP path is cut at '/' before its segments are percent-decoded (a decoded %2F stays inside its token)"},
@@ -344,9 +364,10 @@ func init() {
 
 	register(&Property{
 		ID: "C15", Title: "Crash freedom and containment of malformed input",
-		Explanation: "Decides the panic classes that have a crisp rule: decoders return no data with an error, so log-and-continue callers cannot apply a partial message, and return the decoded object whenever they report success, so callers that dereference it cannot hit nil (DOM/all-or-nothing); decoded indexes reach slice operations only inside [0,len] with the exact bound for element access vs slicing, content is dereferenced only for the right kind (DOM/index-kind-guard); optional decoded pointers are dereferenced under their nil test or a predicate implying it, null elements of decoded pointer slices are rejected (DOM/opt-deref); explicit panics and unchecked type assertions are the listed ones (CENSUS/panic); no send on a channel that may have been closed (CHAN: known finding F5 for Cache.inCh); recursive cycles are the listed ones with checked guards (REC/census); the mutex acquisition graph is acyclic (LOCK/order); one Done per throttle slot, so the 'negative running counter' panic is unreachable (PAIR/throttle-slot); a failed or malformed re-fetch closes the reset window, so later valid messages are processed normally (DOM/reset-protocol). Not decided: index safety of lcs, ResourcePattern.Match, byte scans in UnmarshalJSON, encoder buffers; JSON library behaviour; memory exhaustion. Added after seeding round 8: a failed query request releases the event lock, so later messages are still processed (PAIR/query-lock). Added after seeding round 10: a value object naming two of rid, action and data is refused (TABLE/value-object); an answer carrying an error is an error (DOM/error-wins). Added after seeding round 11: every message is decoded as a whole — json.Unmarshal, or a streaming decode followed by a probe for trailing input (TABLE/whole-input); the kind of an answer is decided by the member that is present (TABLE/kind-by-presence). ",
+		Explanation: "Decides the panic classes that have a crisp rule: decoders return no data with an error, so log-and-continue callers cannot apply a partial message, and return the decoded object whenever they report success, so callers that dereference it cannot hit nil (DOM/all-or-nothing); decoded indexes reach slice operations only inside [0,len] with the exact bound for element access vs slicing, content is dereferenced only for the right kind (DOM/index-kind-guard); optional decoded pointers are dereferenced under their nil test or a predicate implying it, null elements of decoded pointer slices are rejected (DOM/opt-deref); explicit panics and unchecked type assertions are the listed ones (CENSUS/panic); no send on a channel that may have been closed (CHAN: known finding F5 for Cache.inCh); recursive cycles are the listed ones with checked guards (REC/census); the mutex acquisition graph is acyclic (LOCK/order); one Done per throttle slot, so the 'negative running counter' panic is unreachable (PAIR/throttle-slot); a failed or malformed re-fetch closes the reset window, so later valid messages are processed normally (DOM/reset-protocol). Not decided: index safety of lcs, ResourcePattern.Match, byte scans in UnmarshalJSON, encoder buffers; JSON library behaviour; memory exhaustion. Added after seeding round 8: a failed query request releases the event lock, so later messages are still processed (PAIR/query-lock). Added after seeding round 10: a value object naming two of rid, action and data is refused (TABLE/value-object); an answer carrying an error is an error (DOM/error-wins). Added after seeding round 11: every message is decoded as a whole — json.Unmarshal, or a streaming decode followed by a probe for trailing input (TABLE/whole-input); the kind of an answer is decided by the member that is present (TABLE/kind-by-presence).  Added after seeding round 12: an alias of a normalised query resource — base pointer or links entry — is recorded in the resource's alias list on the same path (PAIR/alias-recorded).",
 		Assumptions: baseAssumptions,
 		Rules: []Rule{
+			{Name: "PAIR/alias-recorded", Min: 1, Run: ruleAliasRecorded, Doc: "an alias installed for a normalised query is recorded in the resource's alias list: no alias outlives its resource (a subscriber attached to a dead resource writes to a nil map on a cache worker)"},
 			{Name: "TABLE/kind-by-presence", Min: 3, Run: ruleKindByPresence, Doc: "an empty model or collection is a valid resource, not a missing one"},
 			{Name: "TABLE/whole-input", Min: 10, Run: ruleWholeInput, Doc: "a message is decoded as a whole: a payload with anything behind its first JSON value is malformed and discarded"},
 			{Name: "TABLE/value-object", Min: 1, Run: ruleValueObject, Doc: "a value object naming two of rid, action and data is refused, not taken for one of them"},
@@ -368,9 +389,10 @@ func init() {
 
 	register(&Property{
 		ID: "C16", Title: "HTTP resources are a faithful, finite rendering of the resource graph",
-		Explanation: "Decides: in both encoders the expansion path is pushed and popped on every successful path, the cycle test and the error-leaf return precede the push, the recursive descent is guarded by the cycle test and the push, so the expansion terminates on cyclic graphs and later siblings are not cut (PAIR/enc-path); the subscription is handed to the renderer before its resources are released, so the rendering is of the graph as cached at response time and not of one that queued events have already changed (PAIR/rpc-resources); HEAD and GET take the same path and HEAD is tested nowhere else; the two encoders agree on the value kinds (TWIN/encode-value); resource responses set Location from the unexpanded rid (PROV/cid-taint clause of C10); every successful path of both encoders, for collections and models of 0, 1 and 2 elements, emits exactly one well-formed JSON value skeleton, and every non-literal write is JSON by construction — json.Marshal, a json.RawMessage from the decoder, an encoded error (PAIR/emit). Not decided — the core: equality of the rendering with the recursive expansion for every graph; JSON well-formedness beyond the guarded structure; RIDToPath/PathToRID as inverse maps. Added after seeding round 7: cached model/collection values already handed to subscriptions are never written in place, so a pending GET renders a state the cache actually had (DOM/copy-on-write). Added after seeding round 8: no error rewrite distinguishes HEAD from GET (TABLE/method-rewrite). Added after seeding round 9: the path reader refuses dots, so the href writer leaves none (TABLE/href-dots). Added after seeding round 10: OnReady runs its callback at once only for a ready subscription, so a GET is rendered only when everything below the resource is loaded (DOM/onready-inline).",
+		Explanation: "Decides: in both encoders the expansion path is pushed and popped on every successful path, the cycle test and the error-leaf return precede the push, the recursive descent is guarded by the cycle test and the push, so the expansion terminates on cyclic graphs and later siblings are not cut (PAIR/enc-path); the subscription is handed to the renderer before its resources are released, so the rendering is of the graph as cached at response time and not of one that queued events have already changed (PAIR/rpc-resources); HEAD and GET take the same path and HEAD is tested nowhere else; the two encoders agree on the value kinds (TWIN/encode-value); resource responses set Location from the unexpanded rid (PROV/cid-taint clause of C10); every successful path of both encoders, for collections and models of 0, 1 and 2 elements, emits exactly one well-formed JSON value skeleton, and every non-literal write is JSON by construction — json.Marshal, a json.RawMessage from the decoder, an encoded error (PAIR/emit). Not decided — the core: equality of the rendering with the recursive expansion for every graph; JSON well-formedness beyond the guarded structure; RIDToPath/PathToRID as inverse maps. Added after seeding round 7: cached model/collection values already handed to subscriptions are never written in place, so a pending GET renders a state the cache actually had (DOM/copy-on-write). Added after seeding round 8: no error rewrite distinguishes HEAD from GET (TABLE/method-rewrite). Added after seeding round 9: the path reader refuses dots, so the href writer leaves none (TABLE/href-dots). Added after seeding round 10: OnReady runs its callback at once only for a ready subscription, so a GET is rendered only when everything below the resource is loaded (DOM/onready-inline). Added after seeding round 12: the dot test of the path readers is applied behind the prefix cut (TABLE/dots-after-prefix).",
 		Assumptions: baseAssumptions,
 		Rules: []Rule{
+			{Name: "TABLE/dots-after-prefix", Min: 2, Run: ruleDotsAfterPrefix, Doc: "the dot test of the HTTP path readers looks at the part behind the api prefix, so every configured prefix works"},
 			{Name: "DOM/onready-inline", Min: 1, Run: ruleOnReadyInline, Doc: "OnReady runs its callback at once only for a ready subscription (everything below it loaded)"},
 			{Name: "TABLE/href-dots", Min: 1, Run: ruleHrefDots, Doc: "the path reader refuses dots, so the href writer leaves none: every id-derived piece passes the . to / replacement"},
 			{Name: "TABLE/method-rewrite", Min: 2, Run: ruleMethodRewrite, Doc: "HEAD is answered exactly as GET: no error rewrite applies to one and not the other"},
@@ -405,9 +427,10 @@ func init() {
 
 	register(&Property{
 		ID: "C18", Title: "Messaging adapter contract: one completion per request, ordered events",
-		Explanation: "Decides for nats/nats.go: every path of SendRequest consumes the completion exactly once (three immediate-error goroutines or the pending entry) (LIN/sendrequest); every invocation of a request completion is preceded by the removal of its pending entry in the critical section of the lookup, a pre-response removes and completes nothing, event callbacks are invoked synchronously in publish order (PATHS/remove-before-invoke); the subject length is checked against the control-line limit before ChanSubscribe/PublishRequest; NoReconnect and the closed handler are installed, one listener goroutine; no deferred closure captures the listener's loop variable (DOM/loopvar); the only method called on a nats.go subscription is Unsubscribe — no delivery limit that a pre-response could use up (DOM/nats-plumbing). Not decided: timing of timeouts and their restart, disconnect detection by nats.go. Added after seeding round 7: whoever removes a found pending request from the map completes it on every path (PATHS/remove-before-invoke). Added after seeding round 9: the closed handler is registered with the connection unconditionally (DOM/nats-plumbing). Added after seeding round 10: completions are invoked with the adapter's mutex released (PATHS/remove-before-invoke). Added after seeding round 11: the length test that refuses a request with system.subjectTooLong measures the subject and the very inbox string that is sent (DOM/control-line-parts).",
+		Explanation: "Decides for nats/nats.go: every path of SendRequest consumes the completion exactly once (three immediate-error goroutines or the pending entry) (LIN/sendrequest); every invocation of a request completion is preceded by the removal of its pending entry in the critical section of the lookup, a pre-response removes and completes nothing, event callbacks are invoked synchronously in publish order (PATHS/remove-before-invoke); the subject length is checked against the control-line limit before ChanSubscribe/PublishRequest; NoReconnect and the closed handler are installed, one listener goroutine; no deferred closure captures the listener's loop variable (DOM/loopvar); the only method called on a nats.go subscription is Unsubscribe — no delivery limit that a pre-response could use up (DOM/nats-plumbing). Not decided: timing of timeouts and their restart, disconnect detection by nats.go. Added after seeding round 7: whoever removes a found pending request from the map completes it on every path (PATHS/remove-before-invoke). Added after seeding round 9: the closed handler is registered with the connection unconditionally (DOM/nats-plumbing). Added after seeding round 10: completions are invoked with the adapter's mutex released (PATHS/remove-before-invoke). Added after seeding round 11: the length test that refuses a request with system.subjectTooLong measures the subject and the very inbox string that is sent (DOM/control-line-parts). Added after seeding round 12: the listener takes a message for a pre-response exactly when its first byte is an ASCII letter, decided for all 256 values by constant propagation (TABLE/meta-first-byte).",
 		Assumptions: append([]string{"nats.go delivers at most what was published; timerqueue fires each entry at most once"}, baseAssumptions...),
 		Rules: []Rule{
+			{Name: "TABLE/meta-first-byte", Min: 1, Run: ruleMetaFirstByte, Doc: "a message on a request inbox is a pre-response exactly when it starts with an ASCII letter (all 256 first bytes decided)"},
 			{Name: "DOM/control-line-parts", Min: 1, Run: ruleControlLineParts, Doc: "the length test in front of a request measures the subject and the reply inbox actually used"},
 			{Name: "CTX/async-completion", Min: 1, Run: ruleAsyncCompletion, Doc: "the completion of a request never runs on the sender's stack (senders hold their own mutex)"},
 			{Name: "LIN/sendrequest", Min: 1, Run: ruleLIN(func(t linTarget) bool { return t.name == "nats.Client.SendRequest" }), Doc: "every path of SendRequest consumes the completion exactly once"},
@@ -441,7 +464,7 @@ func init() {
 
 	register(&Property{
 		ID: "C20", Title: "Fail-stop on messaging loss or Stop, with all clients disconnected",
-		Explanation: "Decides: Stop runs metrics, sockets, HTTP, messaging in this order on the one path that is not a repeated Stop, sets stopping under the mutex first and reports the cause on the stop channel last; the messaging client is closed with a bounded wait before the cache stops; Cache.Stop closes the worker channel, clears pending evictions and resets started; no connection is created or registered once stopped or stopping; loss of the messaging connection stops the service with the cause (DOM/stop); sends on inCh cannot hit the close (CHAN: known finding F5); a connection reports itself done to Stop (wg.Done) only after it released its cache and messaging resources (DOM/dispose). Not decided: that sockets are closed within the timeouts, net/http shutdown, 'never serves from a stale cache' as a runtime fact. Added after seeding round 7: no mutex is re-acquired while held, directly or by a task the holder waits for (LOCK/order with synchronous hand-offs): Stop cannot deadlock on its own lock. Added after seeding round 9: the cause is put on the stop channel inside the critical section that returns the service to not-running, so Start/Stop can be repeated (DOM/stop). Added after seeding round 10: close stops the listener and clears the pending timeouts whenever the adapter was connected, also when the connection is already closed (DOM/nats-plumbing).",
+		Explanation: "Decides: Stop runs metrics, sockets, HTTP, messaging in this order on the one path that is not a repeated Stop, sets stopping under the mutex first and reports the cause on the stop channel last; the messaging client is closed with a bounded wait before the cache stops; Cache.Stop closes the worker channel, clears pending evictions and resets started; no connection is created or registered once stopped or stopping; loss of the messaging connection stops the service with the cause (DOM/stop); sends on inCh cannot hit the close (CHAN: known finding F5); a connection reports itself done to Stop (wg.Done) only after it released its cache and messaging resources (DOM/dispose). Not decided: that sockets are closed within the timeouts, net/http shutdown, 'never serves from a stale cache' as a runtime fact. Added after seeding round 7: no mutex is re-acquired while held, directly or by a task the holder waits for (LOCK/order with synchronous hand-offs): Stop cannot deadlock on its own lock. Added after seeding round 9: the cause is put on the stop channel inside the critical section that returns the service to not-running, so Start/Stop can be repeated (DOM/stop). Added after seeding round 10: close stops the listener and clears the pending timeouts whenever the adapter was connected, also when the connection is already closed (DOM/nats-plumbing). Added after seeding round 12: the HTTP server object is created by startHTTPServer and cleared by stopHTTPServer only — a server that was shut down is never started again (WHO/stop).",
 		Assumptions: baseAssumptions,
 		Rules: []Rule{
 			{Name: "LOCK/order", Min: 2, Run: ruleLockOrder, Doc: "Stop completes: no lock is re-acquired, directly or by a task it waits for, while it is held (mutex acquisition graph acyclic, synchronous hand-offs included)"},
@@ -456,6 +479,7 @@ func init() {
 				{Field: "rescache.Cache.inCh", Writers: w("(*rescache.Cache).Start", "re-created per start")},
 				{Field: "rescache.Cache.eventSubs", Writers: w("(*rescache.Cache).Start", "the cache index is re-created per start: nothing cached survives a stop")},
 				{Field: "rescache.Cache.unsubQueue", Writers: w("(*rescache.Cache).Start", "re-created per start")},
+				{Field: "server.Service.h", Writers: w("(*server.Service).startHTTPServer", "a fresh http.Server per start: one that was shut down cannot serve again", "(*server.Service).stopHTTPServer", "cleared")},
 			}), Doc: "who may write the lifecycle flags"},
 		},
 	})
